@@ -414,12 +414,17 @@ class FcpV2Transformer(Transformer):
         try:
             self.error_logger.add_source(filename.name, source)
             fcp_ast = fcp_parser.parse(source)
-        except (UnexpectedCharacters, UnexpectedEOF) as e:
+        except UnexpectedCharacters as e:
             return error(
                 self.error_logger.log_lark(filename.name, e),
                 Token(
                     MetaData(e.line, e.line, e.column, e.column, 0, 0, str(filename))
                 ),
+            )
+        except UnexpectedEOF as e:
+            return error(
+                self.error_logger.log_lark(filename.name, e) + " in " + filename.name,
+                Token(_get_meta(tree, self)),
             )
 
         fcp = FcpV2Transformer(
@@ -566,6 +571,8 @@ def _get_fcp(
             logger.log_lark(filename.name, e),
             Token(MetaData(e.line, e.line, e.column, e.column, 0, 0, str(filename))),
         )
+    except UnexpectedEOF as e:
+        return error(logger.log_lark(filename.name, e) + " in " + filename.name)
 
     parser_context = ParserContext()
 
